@@ -3,7 +3,7 @@ from props._e3 import make
 
 globals().update(make(
     'C16', ('value',),
-    [('general', 4), ('interrupt', 2), ('batching', 2), ('buffers', 1), ('groups', 1)],
+    [('values', 5), ('general', 3), ('interrupt', 2), ('batching', 2), ('buffers', 1), ('groups', 1)],
     'Oracle after every event, for every registered asset: value == starting value + sum of history deltas; every '
     'history entry has a non-zero delta, the running total, and (for entries written during this event) the current '
     'time; source.value == -cost_of_produced_parts == -(sum of the value each supplied part had just before the '
